@@ -5,25 +5,25 @@ V = os.path.dirname(os.path.dirname(os.path.abspath(__file__)))
 ids = [json.loads(l)["id"] for l in open(os.path.join(V, "properties.jsonl"))]
 
 LEVEL = {
- "C01": ("bounded symbolic model checking of the real piecedownloader (go/ssa executed over SMT terms): for every piece layout within the bound and every adversarial message sequence of the stated length, block data is stored iff it is a valid, new block; completion iff all blocks arrived; completed buffer equals the accepted data with padding zero. Paths are explored exhaustively within the bounds; each assertion is an unsat SMT query.", "4 C01"),
+ "C01": ("bounded symbolic model checking of the real piece downloader against an adversarial peer (stored iff valid new block, Done iff all blocks, buffer == accepted data), of the write path (section writes land exactly, a failed section write is reported), of the write -> mark-done -> persist order over every crash prefix, and of the rule that a peer whose piece fails the hash check is disconnected, banned and never dialled again (event sequences on the real torrent handlers); whole-download file identity is argued from these steps, not run end to end", "4 C01, 10.3"),
  "C02": ("bounded symbolic model checking of NewPieces, calculateBlocks (real code from SSA) against an arithmetical tiling oracle with a symbolic witness offset; all lengths symbolic (32/64-bit), structure bounded (<=3 files/sections, <=3 pieces/<=4 blocks)", "4 C02"),
- "C03": ("bounded symbolic model checking of the request bounds check (all 32-bit triples) and of the cached piece reader (symbolic section layout, file offsets and content, request position and length) against the piece's flat content", "4 C03"),
- "C06": ("bounded symbolic model checking of NewInfo's validation with the decoder replaced by an arbitrary decoded value; termination of piece construction as an unwinding assertion", "4 C06"),
- "C10": ("bounded symbolic model checking of the honest-source piece assembly for every layout in the bound (safety part: completes in #blocks+1 rounds with the true bytes); end-to-end liveness is outside the claim", "4 C10"),
- "C13": ("bounded symbolic model checking of metadata block accounting against an adversarial peer (3 steps, <=3 blocks)", "4 C13"),
- "C16": ("one inductive step of Tier.Announce from every reachable stored index (symbolic), tier size 1..4", "4 C16"),
- "C18": ("bounded symbolic model checking of the segment tree (build+query) against the union-of-ranges definition for arbitrary 32-bit endpoints", "4 C18"),
- "C15": ("bounded symbolic model checking of the UDP announce packet construction against the BEP 15 byte layout written independently (all field values symbolic)", "4 C15"),
+ "C03": ("bounded symbolic model checking of the real request handler on a real torrent value (all 32-bit request triples x choking / fast extension / both allowed-fast sets / piece present / short last piece) and of the cached piece reader (symbolic section layout, file offsets, content, request position and length) against the piece's flat content", "4 C03"),
+ "C06": ("bounded symbolic model checking of NewInfo's validation and of Session.parseInfo's limits with the bencode decoder replaced by an arbitrary decoded value; termination of piece construction as an unwinding assertion; the decoder itself, .torrent size limiting and magnet text parsing are outside the claim", "4 C06"),
+ "C10": ("bounded symbolic model checking of (a) honest-source piece assembly for every layout in the bound (completes in #blocks+1 rounds with the true bytes) and (b) no starvation in the real picker driven through the real handlers from rich states (an idle unchoked peer holding a needed piece that nobody downloads - or, in end game, below the duplicate limit - gets a request). Whole-download completion is argued from (a)+(b) plus C02 geometry, not run end to end; web-seed-only and encrypted transfers are outside the claim", "4 C10, 10.3"),
+ "C13": ("bounded symbolic model checking of metadata block accounting against an adversarial peer, of the size cap on the announced metadata size (arbitrary 64-bit value), and of the adoption step on a real magnet torrent with two peers (all 4-message sequences; SHA-1 as an uninterpreted function so both hash outcomes are explored for any content): adopted only if the hash matches, never modified afterwards, no download left registered. Eventual success with an honest peer and the magnet text round trip are outside the claim", "4 C13, 10.3"),
+ "C16": ("one inductive step of Tier.Announce from every reachable stored index (tier size 1..4); bounded symbolic model checking of the real shared UDP transport (Run, readLoop, Do, connect/retry goroutines) with two announcing torrents against an arbitrary tracker, goroutines scheduled cooperatively with one forking scheduling point per path; of the announcer's retry after every kind of failed announce incl. foreign cancellations; of UDP reply and compact peer parsing for arbitrary bytes. HTTP tracker reply parsing (bencode) is outside the claim", "4 C16, 10.3"),
+ "C18": ("bounded symbolic model checking of the segment tree (build+query) against the union-of-ranges definition for arbitrary 32-bit endpoints; of the real blocklist loader on a concrete list; of AddrList admission filters for an arbitrary address and of AddrList as a bounded priority set (real btree, arbitrary priorities, all 4-operation sequences); of dial / accept admission on the real torrent handlers (blocked, banned, connected, own address, port 0) over all 4-event sequences. Announce-to-blocked-tracker (resolver) is outside the claim", "4 C18, 10.3"),
+ "C15": ("bounded symbolic model checking of the UDP announce packet construction against the BEP 15 byte layout written independently (all field values symbolic), and of the real PeriodicalAnnouncer loop with its announce goroutines against a tracker with arbitrary replies (any interval / min-interval incl. zero and negative, failures, aborts), completion before / between / during announces: event discipline, HasAnnounced, re-announce spacing. HTTP request encoding and the stop announcer's tracker selection in torrent.stop are outside the claim", "4 C15, 10.3"),
  "C08": ("bounded symbolic model checking of the input-validation units a peer's bytes reach first (bitfield construction, metadata block accounting, compact address decoding): arbitrary bytes/fields within the stated sizes never panic and are rejected or consistent. The stream reader and the message handlers are not covered yet.", "4 C08"),
  "C07": ("bounded symbolic model checking of the real NewInfo -> FileStorage.Open path computation and of readData with symbolic ASCII strings (real strings/path/filepath code executed from SSA); every path that would be created/opened is captured by recorders and checked against the data directory", "4 C07"),
  "C11": ("bounded symbolic model checking of the real writer and reader goroutines (cooperative scheduling, select forks) against BEP byte layouts written independently, and of the writer->reader round trip under symbolic fragmentation", "4 C11"),
  "C05": ("bounded symbolic model checking of the write -> set-bit -> persist order on the real torrent handlers and the real piece writer with the crash instant ranging over every prefix of the recorded effect log; of the resume-trust decision at allocation time; and of the O_SYNC open flags. bbolt's own atomicity and the periodic stats goroutine are outside the claim.", "4 C05"),
- "C04": ("bounded symbolic model checking of the real torrent lifecycle handlers: all event sequences up to the stated length from a freshly constructed torrent (real newTorrent), with symbolic worker results, checking a written lifecycle invariant after every event", "4 C04"),
- "C17": ("bounded symbolic model checking of the write-cache reservation manager (real goroutines, cooperative scheduling with select forking): request/cancel/release sequences never strand the caller and reservations balance; of the accept-side connection cap incl. failed handshakes (real handshaker); of the web-seed source cap in the constructor. Queue caps per peer are partly covered by C01/C11 harnesses; rate limits and the dial-side cap are not covered.", "4 C17"),
- "C12": ("bounded symbolic model checking of the MSE synchronisation scan (symbolic padding, scan limit, fragmentation) and of the two-party handshake (both real endpoints as cooperating goroutines, cryptographic primitives replaced by their algebraic contracts): agreement on one offered cipher or failure on both sides, payload integrity in both directions, wrong key never completes. The forced-encryption policy matrix (btconn.Accept/Dial) is not covered.", "4 C12"),
- "C19": ("bounded symbolic model checking of every site where a private torrent could start DHT/PEX activity or accept an address (real handlers on a real torrent value; all configuration combinations; arbitrary PEX/DHT addresses)", "4 C19"),
- "C09": ("bounded symbolic model checking of the real piece picker driven through the real torrent message handlers: all peer-event sequences up to the stated length from a fresh downloading torrent, checking every request sent and the download table against the property's statements. Web-seed range assignment is not covered.", "4 C09"),
- "C14": ("bounded symbolic model checking of the session registry code (real Session.AddTorrent/RemoveTorrent/add/getPort/releasePort/insertTorrent) over all 3-operation sequences with injected failures: port and registry conservation and registry == resume records. Restart equivalence and value round trips through bbolt are not covered.", "4 C14"),
+ "C04": ("bounded symbolic model checking of the real torrent lifecycle handlers: all event sequences up to the stated length from a freshly constructed torrent (real newTorrent) with symbolic worker results, a written lifecycle invariant after every event, stop / error must end Stopped; connection bookkeeping across stop and completion; stop-after-download is one-shot. The wall-clock clause (stop within the tracker timeout) and restart-converges are outside the claim", "4 C04, 10.3"),
+ "C17": ("bounded symbolic model checking of the write-cache reservation manager (real goroutines, select forking): request/cancel/release never strand the caller and reservations balance; of the accept-side and dial-side connection caps and connected-IP bookkeeping (event sequences on the real handlers); of the per-peer queued-upload-request cap (real writer loop on a slow connection); of the web-seed source and concurrent-download caps. Rate limits, read-cache size and outstanding-request caps are outside the claim", "4 C17, 10.3"),
+ "C12": ("bounded symbolic model checking of the MSE synchronisation scan (symbolic padding, scan limit, fragmentation), of the two-party handshake (both real endpoints as cooperating goroutines, cryptographic primitives replaced by their algebraic contract) and of the acceptor's encryption policy (real btconn.Accept against cleartext and MSE dialers, force on/off). The dialer's retry-in-cleartext policy (btconn.Dial, real sockets) and cryptographic strength are outside the claim", "4 C12, 10.3"),
+ "C19": ("bounded symbolic model checking of every site where a private torrent could start DHT/PEX activity or accept an address (real handlers on a real torrent value; all configuration combinations; arbitrary PEX/DHT addresses; any non-zero private flag value), of the private identity strings, of magnet export refusal, and of the refusal of private metadata fetched through a magnet link (not kept)", "4 C19, 10.3"),
+ "C09": ("bounded symbolic model checking of the real piece picker driven through the real torrent message handlers: all peer-event sequences up to the stated length from a fresh downloading torrent and from rich states, and all event sequences with two web-seed sources and a peer (web-seed results as events), checking every request sent, the download table, web-seed range disjointness and bookkeeping against the clauses of the property", "4 C09, 10.3"),
+ "C14": ("bounded symbolic model checking of the session registry code (real Session.AddTorrent/RemoveTorrent/add/getPort/releasePort/insertTorrent) over all 3-operation sequences with injected failures (port and registry conservation, registry == resume records); of the resume record round trip through the real boltdbresumer Write/Read/field updates over a key/value contract of bbolt (counters at every power-of-two boundary); and of CompactDatabase on a torrent in an arbitrary resting state. Session start-up loading (restart equivalence) is outside the claim", "4 C14, 10.3"),
 }
 NOTE = "trusted base: go/packages+go/ssa (x/tools v0.50.0) reading of the source, the engine's instruction semantics (validated by native replay of sampled paths and of every counterexample), z3 4.8.12 / z3 5.1.0 / cvc5 1.0.3; named stubs listed in the evidence file; bounds as stated per harness in the evidence; anything beyond the bounds is outside the claim"
 
